@@ -151,8 +151,12 @@ def run(nslots, only, runs):
             else:
                 lines[m['line']] = m['new']
                 open(p, 'w').write('\n'.join(lines))
-                pk = '--workspace'
-                code, out = sh(f'cd {D}/repo && cargo test -q {pk} --no-fail-fast --offline 2>&1 | tail -40', {'CARGO_TARGET_DIR': D + '/target-test', 'CARGO_NET_OFFLINE': 'true'}, timeout=900)
+                # the pinned suite lives in the three library crates (unit + doc tests); the PyO3 crate has no tests of its
+                # own, a mutant there only has to compile (the extension is built by ./check C18 / C19 anyway)
+                if m['file'].startswith('rust/'):
+                    code, out = sh(f'cd {D}/repo && cargo check -q -p bourse --offline 2>&1 | tail -40', {'CARGO_TARGET_DIR': D + '/target-test', 'CARGO_NET_OFFLINE': 'true'}, timeout=900)
+                else:
+                    code, out = sh(f'cd {D}/repo && cargo test -q -p bourse-book -p bourse-de -p bourse-macros --no-fail-fast --offline 2>&1 | tail -40', {'CARGO_TARGET_DIR': D + '/target-test', 'CARGO_NET_OFFLINE': 'true'}, timeout=900)
                 if 'error: could not compile' in out or 'error[E' in out or re.search(r'^error: ', out, re.M) and 'test failed' not in out:
                     res['outcome'] = 'nocompile'
                 elif 'test failed' in out or 'FAILED' in out or code == 124:
